@@ -34,7 +34,46 @@ pub fn c10_k(tier: &str) -> usize {
     }
 }
 
+/// Indices from here on denote the recorded histories of corpus/regress_ssim.json (minimised replay
+/// files of every repaired defect and of every detection of an independently written breaking
+/// change, tools/build_regress.py): explicit runs, executed by every ssim check next to the seeded ones.
+pub const REG_BASE: u64 = 1 << 40;
+
+#[derive(serde::Deserialize)]
+struct RegressEntry {
+    origin: String,
+    run: Run,
+}
+
+pub fn regress() -> &'static Vec<(String, Run)> {
+    static R: std::sync::OnceLock<Vec<(String, Run)>> = std::sync::OnceLock::new();
+    R.get_or_init(|| {
+        if std::env::var("SIM_NO_REGRESS").is_ok() {
+            return vec![];
+        }
+        let path = format!("{}/corpus/regress_ssim.json", crate::coord::home());
+        let Ok(s) = std::fs::read_to_string(&path) else { return vec![] };
+        match serde_json::from_str::<Vec<RegressEntry>>(&s) {
+            Ok(v) => v.into_iter().map(|e| (e.origin, e.run)).collect(),
+            Err(e) => {
+                println!("HARNESS-ERROR: cannot parse {}: {}", path, e);
+                std::process::exit(2)
+            }
+        }
+    })
+}
+
 pub fn plan(corpus: &[Project], property: &str, tier: &str, root: u64, index: u64) -> Run {
+    if index >= REG_BASE {
+        let (origin, r) = &regress()[(index - REG_BASE) as usize];
+        let mut run = r.clone();
+        run.root_seed = root;
+        run.run_index = index;
+        run.label = format!("recorded:{}", origin.split('/').next().unwrap_or(""));
+        run.violation_class = String::new();
+        run.observed = serde_json::Value::Null;
+        return run;
+    }
     let seed = derive(root, property, index);
     let mut run = match property {
         "C14" => {
